@@ -262,6 +262,14 @@ def r_cross(ctx, rng, Y, n, fam):
     delta[tuple(int(rng.integers(k)) for k in n)] = 2.5
     objs = {'family-tensor': A, 'zero': np.zeros(n), 'constant': np.full(n, 3.),
         'delta': delta}
+    # values in the subnormal range (an un-normalised Boltzmann weight, the
+    # far tail of a Gaussian): finite input, finite output
+    amax = float(np.abs(A).max()) or 1.
+    objs['subnormal'] = A / amax * float(10.0 ** rng.uniform(-322, -309))
+    tail = np.zeros(n)
+    tail[...] = 10.0 ** rng.uniform(-318, -310)
+    tail[tuple(int(rng.integers(k)) for k in n)] = 1.
+    objs['subnormal-with-peak'] = tail
     for name, T in objs.items():
         for (dmin, dmax), use_cache in itertools.product([(0, 0), (1, 1),
                 (0, 2)], [False, True]):
@@ -403,7 +411,36 @@ def r_anova_func(ctx, rng, fam):
         ctx.nontrivial(['anova_func', kind, d, nm])
 
 
+def r_accuracy_ratio(ctx, rng):
+    """accuracy of tensors whose norms differ by 2^1024 and more (cores with
+    ordinary finite entries): the documented saturation values, the sentinel
+    or the true value - never an exception, inf or NaN."""
+    import teneva
+    d = int(rng.integers(60, 140))
+    big = [np.full((1, 2, 1), float(rng.uniform(500, 3000))) for _ in range(d)]
+    one = [np.ones((1, 2, 1)) for _ in range(d)]
+    zero = [np.zeros((1, 2, 1)) for _ in range(d)]
+    small = [np.full((1, 2, 1), float(rng.uniform(1e-4, 1e-3)))
+        for _ in range(d)]
+    pairs = [('huge vs ones', big, one), ('ones vs huge', one, big),
+        ('huge vs zero', big, zero), ('zero vs huge', zero, big),
+        ('huge vs tiny', big, small), ('tiny vs huge', small, big),
+        ('tiny vs zero', small, zero)]
+    for name, Y1, Y2 in pairs:
+        try:
+            a = teneva.accuracy(Y1, Y2)
+        except Exception as ex:
+            ctx.viol('accuracy', f'accuracy({name}, d = {d}) raised '
+                f'{type(ex).__name__}: {ex}')
+            continue
+        ctx.check('accuracy', np.isfinite(a) and (a >= 0 or a == -1),
+            f'accuracy({name}, d = {d}) returned {a!r}')
+    ctx.event('accuracy-norm-ratio-beyond-2^1024')
+
+
 def r_extreme(ctx, rng):
+    if rng.random() < 0.3:
+        return r_accuracy_ratio(ctx, rng)
     """Finite cores whose tensor is so small that Gram matrices underflow
     to exactly zero (norm < 1e-162, float32: < 1e-23), or so large that the
     norm is not a double (> 1e308; stabilised rounding only): the results
